@@ -90,6 +90,30 @@ func init() {
 			mj = []byte("!error")
 		}
 		e["mt"], e["mj"] = S(mt), S(mj)
+		{
+			k1, k2 := append([]byte(nil), mt...), append([]byte(nil), mj...)
+			for i := range mt {
+				mt[i] = '#'
+			}
+			for i := range mj {
+				mj[i] = '#'
+			}
+			m2, e1 := n.MarshalText()
+			j2, e2 := n.MarshalJSON()
+			if e1 != nil || e2 != nil {
+				m2, j2 = []byte("!error"), []byte("!error")
+			}
+			e["mt2"], e["mj2"] = S(m2), S(j2)
+			mt, mj = k1, k2
+			h1, _ := n.MarshalText()
+			h2, _ := n.MarshalJSON()
+			h3, _ := size.DefaultFormatter(nil, n, size.FormatPretty)
+			oth := n/3 + 12345
+			_, _ = oth.MarshalText()
+			_, _ = oth.MarshalJSON()
+			_, _ = size.DefaultFormatter(nil, oth, size.FormatPretty)
+			e["held"], e["heldj"], e["heldp"] = S(h1), S(h2), S(h3)
+		}
 		e["str"], e["pretty"], e["html"] = S(n.String()), S(n.PrettyString()), S(string(n.PrettyHTML()))
 		f2, _ := size.DefaultFormatter(nil, n, size.FormatHTML)
 		e["f2"] = S(f2)
@@ -146,7 +170,7 @@ func init() {
 			if str(e["T"]) == "s" {
 				s, err = size.DefaultParser(string(in), rule)
 			} else {
-				s, err = size.DefaultParser(in, rule)
+				s, err = size.DefaultParser(reused(in), rule)
 			}
 		})
 		e["panic"] = p
